@@ -69,7 +69,10 @@ def parse_lists(out):
     res = {}
     for m in re.finditer(r"\b(\w+) = (\[[^\]]*\]|nil)", flat):
         body = m.group(2)
-        res[m.group(1)] = [] if body in ("nil", "[]") else [int(x) for x in re.findall(r"\d+", body)]
+        idx = [] if body in ("nil", "[]") else [int(x) for x in re.findall(r"\d+", body)]
+        if body not in ("nil", "[]") and not idx:
+            raise RuntimeError("unparsable mismatch list printed by the model evaluation: %s = %s" % (m.group(1), body[:200]))
+        res[m.group(1)] = idx
     return res
 
 
